@@ -9016,7 +9016,7 @@ bool SoPlexBase<R>::_parseSettingsLine(char* line, const int lineNumber)
                     || strncasecmp(paramValueString, "FALSE", 5) == 0
                     || strncasecmp(paramValueString, "f", 5) == 0
                     || strncasecmp(paramValueString, "F", 5) == 0
-                    || strtol(paramValueString, nullptr, 5) == 0)
+                    || strncmp(paramValueString, "0", 5) == 0)
                success = setBoolParam((SoPlexBase<R>::BoolParam)param, false);
             else
                success = false;
@@ -9506,7 +9506,7 @@ bool SoPlexBase<R>::parseSettingsString(char* string)
                     || strncasecmp(paramValueString, "FALSE", 5) == 0
                     || strncasecmp(paramValueString, "f", 5) == 0
                     || strncasecmp(paramValueString, "F", 5) == 0
-                    || strtol(paramValueString, nullptr, 5) == 0)
+                    || strncmp(paramValueString, "0", 5) == 0)
                success = setBoolParam((SoPlexBase<R>::BoolParam)param, false);
             else
                success = false;
